@@ -547,6 +547,27 @@ def run(cx, rep):
             rep.ob("C04.1", key, True, sample={"key": key, "count": len(sites), "class": e["class"], "sites": locs})
     rep.floor("C04.1", "reachable diverging sites", total, 60)
 
+    # the named invariants that census entries of class `invariant` lean on are decided by their own rules;
+    # a violated invariant makes the guarded panic reachable, so it is a C04 violation as well
+    rep.rule("C04.inv", "named invariants behind census entries hold (INV-GENNAME = C07.2, INV-ATOM = C05.2)")
+    from report import Report
+    import importlib
+    for modname, rid, inv in (("rules.c07", "C07.2", "INV-GENNAME"), ("rules.c05", "C05.2", "INV-ATOM")):
+        sub = Report.__new__(Report)
+        sub.pid = "sub"; sub.tier = rep.tier; sub.level = "other"; sub.t0 = 0
+        sub.rules = {}; sub.violations = []; sub.samples = []; sub.analysed = {}; sub.assumptions = []; sub.trusted = []
+        sub.explanation = ""; sub.notes = []; sub.extra = {}; sub.known = {}; sub.known_hit = set()
+        try:
+            importlib.import_module(modname).run(cx, sub)
+        except Exception as e:  # the other property's check reports its own internal errors
+            rep.notes.append("could not evaluate %s inside C04: %s" % (rid, e))
+            continue
+        r = sub.rules.get(rid, {"obligations": 0, "discharged": 0})
+        bad = [v for v in sub.violations if v["rule"] == rid]
+        rep.ob("C04.inv", inv, not bad,
+               "%s is violated (%s): the assert/unreachable sites the census classifies under it become reachable: %s" % (inv, rid, "; ".join(v["msg"][:200] for v in bad[:2])),
+               bad[0]["loc"] if bad else None, sample={"invariant": inv, "rule": rid, "obligations": r["obligations"], "discharged": r["discharged"]})
+
     # ---------------------------------------------------------------- C04.2
     rep.rule("C04.2", "no match arm over an input-shaped enum (swc AST / binding tables) is a panic")
     arms_tab = {(e["adt"], e["variant"]): e for e in cx.table("c04_grammar_excluded_arms.json")["arms"]}
